@@ -194,6 +194,28 @@ def check_sign_expr(P, fn, c):
     return None
 
 
+def check_identity_cursor_contained(P, ctx, rule='C09.tuple-walks-by-position'):
+    """Tuple's cursor functions find their position by object identity (a recorded known finding of C11: a Tuple that holds the same
+    object twice is not walked correctly).  Nothing in the library may build on them: Tuple's own cmp, hash, show, ... walk by index, and
+    that is what keeps `cmp(tuple(x, x), ...)` right.  Who-may-call rule: the cursor functions are referenced by the Iter instance only."""
+    names = {P.slot('Tuple', 'Iter', m, required=False) for m in ('iter_init', 'iter_next', 'iter_last', 'iter_prev')} - {None}
+    users = []
+    for fn in P.all_functions():
+        if not fn['unit'].startswith('src/') or fn.get('body') is None or fn['name'] in names:
+            continue
+        for e, ln in ir.all_exprs(fn['body']):
+            for x in ir.walk(e):
+                if x[0] == 'func' and x[1] in names and x[1].endswith(('_Next', '_Prev')):
+                    users.append((fn, ln, x[1]))
+    for fn, ln, nm in users[:3]:
+        ctx.fn(fn)
+        ctx.refuted(rule, '%s:uses:%s' % (fn['name'], nm), site(fn, ln), '%s steps through a Tuple with %s, which finds its position by identity: wrong as soon as the Tuple holds an object twice' % (fn['name'], nm))
+    ctx.check(len(names) == 4, rule, 'anchor', 'src/Tuple.c', 'Tuple\'s four cursor functions are the members of its Iter instance (%s)' % ', '.join(sorted(names)))
+    if not users:
+        ctx.proved(rule, 'no-internal-user', 'src/', 'no function of the library steps through a Tuple with its identity-based cursor functions')
+    ctx.floor(rule, 2)
+
+
 def check_predicates(P, ctx):
     rule = 'C09.predicates'
     want = {'eq': {0}, 'neq': {-1, 1}, 'gt': {1}, 'lt': {-1}, 'ge': {0, 1}, 'le': {-1, 0}}
@@ -471,6 +493,7 @@ def run(ctx, load):
     ctx.stats['configs'] = ['default']
     check_scalar_cmps(P, ctx)
     check_predicates(P, ctx)
+    check_identity_cursor_contained(P, ctx)
     from . import evals
     evals.report_type_cmp(P, ctx, 'C09.type-order', site, what=('cmp',))
     ctx.floor('C09.type-order', 1)
